@@ -249,6 +249,14 @@ def alphabet(N, tier):
             [S_(None, None, 2), S_(None, None)], [1, S_(0, 3, 2)], [S_(None, None, -1), 0],
             [S_(-1, None), S_(None, -1)],
         ]
+    elif W >= 4:
+        # order 4 and up: keys with three and more integer entries around one or two slices / lists (the integer
+        # positions are re-inserted one by one when a sparse right-hand side is renumbered)
+        z = [0] * (W - 4)
+        keys = [
+            [0, 1, 0, S_(None, None)] + z, [S_(None, None), 0, 0, 1] + z, [0, S_(None, None), 1, S_(None, None)] + z,
+            [S_(None, None)] * W, [1, 0, S_(0, 2), 0] + z, [0, 0, L_(1, 0), 0] + z, [0, 0, 0, S_(0, 3, 2)] + z,
+        ]
     else:
         keys = [
             [0, S_(None, None), S_(None, None)], [S_(None, None), 0, 1], [S_(None, None)] * 3,
@@ -331,7 +339,7 @@ def _quick_keep(lab, i):
 # initial states
 
 
-INITS = ["empty", "z12", "z22", "z212", "e22_sorted", "e22_reversed_c", "e22_rotated", "e212_rev"]
+INITS = ["empty", "z12", "z22", "z212", "e22_sorted", "e22_reversed_c", "e22_rotated", "e212_rev", "z2121"]
 
 
 def build_init(name):
@@ -340,7 +348,7 @@ def build_init(name):
     if name == "empty":
         return ttb.tensor(), ttb.sptensor(), RefArr()
     if name.startswith("z"):
-        shape = {"z12": (1, 2), "z22": (2, 2), "z212": (2, 1, 2)}[name]
+        shape = {"z12": (1, 2), "z22": (2, 2), "z212": (2, 1, 2), "z2121": (2, 1, 2, 1)}[name]
         return ttb.tensor(np.zeros(shape)), ttb.sptensor(shape=shape), RefArr(np.zeros(shape))
     if name.startswith("e22"):
         shape = (2, 2)
